@@ -348,15 +348,65 @@ def one_case(rng, stream):
                 as_list=as_list, wform=wform, kind=kind, S=S, n=n)
 
 
-def run_impl(case, via_method):
-    tris = [Triangle(t) for t in case["tris"]]
+def recomputed(cells):
+    sizes = {int(v.size) for c in cells for v in c.values.values() if isinstance(v, np.ndarray) and v.size > 1}
+    return {"num_samples": 1 if not sizes else (sizes.pop() if len(sizes) == 1 else "ValueError"),
+            "fields": sorted({k for c in cells for k in c.values}),
+            "slices": len({c.metadata for c in cells}),
+            "periods": len({c.period for c in cells}),
+            "len": len(cells)}
+
+
+def accessors(tri):
+    st, ns = call(lambda: tri.num_samples)
+    return {"num_samples": int(ns) if st == "ok" else ns, "fields": list(tri.fields), "slices": len(tri.slices),
+            "periods": len(tri.periods), "len": len(tri)}
+
+
+def run_impl(case, via_method, tris=None):
+    """`tris`: re-use the SAME Triangle objects (second call of a sequence). Arguments that have their default
+    value are left out when the case says so."""
+    tris = tris if tris is not None else [Triangle(t) for t in case["tris"]]
     arg = tris if case["as_list"] else tuple(tris)
+    kw = {"weights": case["weights"], "method": case["method"], "seed": case["seed"]}
+    if case.get("omit_defaults"):
+        kw = {k: v for k, v in kw.items() if not (v is None or (k == "method" and v == "mixture"))}
+    acc = [accessors(t) for t in tris]                  # cached accessors of the inputs are read beforehand
     with ChoiceRecorder() as rec:
         if via_method and case["as_list"] and len(tris) >= 1:
-            res = call(lambda: tris[0].blend(tris[1:], weights=case["weights"], method=case["method"], seed=case["seed"]))
+            res = call(lambda: tris[0].blend(tris[1:], **kw))
         else:
-            res = call(blend, arg, weights=case["weights"], method=case["method"], seed=case["seed"])
+            res = call(blend, arg, **kw)
+    rec.inputs_untouched = acc == [accessors(t) for t in tris]
     return tris, res, rec
+
+
+def sequence_case(rng):
+    """blend of blended results: two inner blends of the same inputs (different dyadic convex weights), then the
+    case under test blends the two RESULTS"""
+    for _ in range(20):
+        base = one_case(rng, "plain")
+        if base["M"] < 2:
+            continue
+        inner = []
+        for _ in range(2):
+            kw = {"weights": dyadic_convex(rng, base["M"]), "method": base["base_method"]}
+            if base["base_method"] == "mixture":
+                kw["seed"] = rng.randrange(1 << 31)
+            st, r = call(blend, [Triangle(t) for t in base["tris"]], **kw)
+            if st != "ok":
+                break
+            inner.append(r)
+        if len(inner) < 2:
+            continue
+        method = rng.choice(["linear", "mixture"])
+        convex = method == "mixture" or rng.random() < 0.6
+        weights, wform = make_weights(rng, 2, base["n"], method, convex)
+        return dict(base, tris=[list(inner[0].cells), list(inner[1].cells)], inner=inner, M=2, weights=weights,
+                    wform=wform, method=method, base_method=method, refusal=None, convex=convex, agree=False,
+                    degenerate=None, as_list=True,
+                    seed=rng.choice([None, 0, 7, rng.randrange(1 << 31)]) if method == "mixture" else None)
+    return one_case(rng, "plain")
 
 
 def dump(res):
@@ -394,13 +444,14 @@ def close_cells(a, b, tol):
 def correspondence(ctx):
     rng = ctx.rng
     n_cases = 6000 if ctx.thorough else 420
-    streams = ["plain"] * 9 + ["refusal"] * 5 + ["degenerate"] * 2 + ["agree"] * 2 + ["single-dict"]
+    streams = ["plain"] * 9 + ["refusal"] * 5 + ["degenerate"] * 2 + ["agree"] * 2 + ["single-dict"] + ["sequence"] * 3
     reqs, infos = [], []
     for ci in range(n_cases):
         stream = rng.choice(streams)
-        case = one_case(rng, stream)
+        case = sequence_case(rng) if stream == "sequence" else one_case(rng, stream)
+        case["omit_defaults"] = rng.random() < 0.3
         via = rng.random() < 0.3
-        tris, res, rec = run_impl(case, via)
+        tris, res, rec = run_impl(case, via, tris=case.get("inner"))
         d = dump(res)
         draws, clash = rec.table()
         inexact = case["base_method"] == "linear" and case["weights"] is None and case["M"] == 3
@@ -433,12 +484,25 @@ def correspondence(ctx):
         if stream == "single-dict" and "err" in d and case["refusal"] is None:
             ctx.fail("a single triangle with dict weights is refused (D17 recurrence)", shown, {"impl": d})
 
-        # seed reproducibility: the same call again gives the same dump
-        if "ok" in d and case["base_method"] == "mixture" and case["seed"] is not None:
-            _, res2, rec2 = run_impl(case, via)
+        if not rec.inputs_untouched:
+            ctx.fail("blend changed the derived accessors (num_samples / fields / slices / periods) of an INPUT", shown)
+        if res[0] == "ok":
+            a, r = accessors(res[1]), recomputed(res[1].cells)
+            ctx.count("sequence/accessors-checked")
+            if a != r:
+                ctx.fail("num_samples / fields / slices / periods of the blend disagree with its own cells", shown,
+                         {"accessors": a, "recomputed_from_cells": r})
+        # SEQUENCE: ruin the first result in place, call again on the SAME objects: same dump (mixture: same seed)
+        if "ok" in d and not (case["base_method"] == "mixture" and case["seed"] is None):
+            for c in res[1].cells:
+                for v in c.values.values():
+                    if isinstance(v, np.ndarray) and v.flags.writeable:
+                        v *= 0
+            _, res2, rec2 = run_impl(case, via, tris=tris)
             if dump(res2) != d:
-                ctx.fail("mixture: same seed, different output", shown, {"first": d, "second": dump(res2)})
-            ctx.count("checked/same-seed")
+                ctx.fail("second call on the same inputs (same seed) differs from the first", shown,
+                         {"first": d, "second": dump(res2)})
+            ctx.count("checked/called-twice")
         if clash and case["seed"] is not None:
             ctx.disagree("np.random.choice: same seed, size and p gave two different vectors", shown)
 
@@ -488,7 +552,10 @@ if __name__ == "__main__":
              "(length 1-8), mixed per triangle (linear); weights None / list / dict of scalars, lists, 1-D, 2-D arrays, "
              "global or per-cell, one matrix; convex dyadic (and arbitrary dyadic for linear); both methods, method "
              "spelling; seeds incl. None; streams: plain, degenerate e_j weights, agreeing inputs, single triangle + "
-             "dict (D17), 21 refusal causes one at a time (incl. incremental triangles differing only in one "
+             "dict (D17), SEQUENCE (blend of two blended results; every successful call repeated on the same objects "
+             "after zeroing the first result's arrays; accessors num_samples/fields/slices/periods read on inputs "
+             "beforehand and compared on the output with values recomputed from its cells; default arguments left "
+             "out in 30 % of the calls), 21 refusal causes one at a time (incl. incremental triangles differing only in one "
              "prev_evaluation_date). distinct = distinct canonical request; non-trivial = at "
              "least one cell",
         assumptions=[
